@@ -3,3 +3,5 @@
 import Compress.Util
 import Compress.XFlate.Index
 import Compress.XFlate.Reader
+import Compress.Bits
+import Compress.Meta.Codec
